@@ -54,11 +54,13 @@ def modelParse (impl : Fields) (pfx : String) (prints : Bool) : ModelParse :=
       | .goPanic _ => { fields := base ++ [(pfx ++ "p", "1")], res := none }
       | .outOfFuel => { fields := base ++ [(pfx ++ "p", "FUEL")], res := none, outOfFuel := true }
       | .ok r =>
-        let t := dumpProgram false r.program
-        let tnc := dumpProgram true r.program
+        let t := dumpProgram false false r.program
+        let ts := dumpProgram false true r.program
+        let tnc := dumpProgram true true r.program
         let f := base ++ [(pfx ++ "p", "0"), (pfx ++ "e", toString r.errors), (pfx ++ "c", boolStr r.cont),
                           (pfx ++ "nn", boolStr (noNilL r.program)), (pfx ++ "t", t)]
-        let f := if tnc != t then f ++ [(pfx ++ "tnc", tnc)] else f
+        let f := if ts != t then f ++ [(pfx ++ "ts", ts)] else f
+        let f := if tnc != ts then f ++ [(pfx ++ "tnc", tnc)] else f
         let f := if prints then f ++ printModes.map fun (k, c, a) => (pfx ++ k, printField r.program c a) else f
         { fields := f, res := some r }
 
